@@ -349,7 +349,7 @@ fn main() {
   vh::util::install_panic_watch();
   let mut rep = Report::new("C03", &args.shard_name());
   let mut rng = Rng::new(args.seed.wrapping_mul(1000).wrapping_add(args.shard as u64));
-  let (n_small, n_big) = if args.thorough() { (400, 60) } else { (60, 8) };
+  let (n_small, n_big) = if args.extra.contains_key("miri") { (2, 0) } else if args.thorough() { (400, 60) } else { (60, 8) };
 
   // Part A: small streams, ALL single cuts and ALL pairs of cuts.
   for k in 0..n_small {
